@@ -50,7 +50,7 @@ func c08guarded(c *an.Ctx) {
 func c08block(c *an.Ctx) {
 	classes := map[string]bool{"NSQD.RWMutex": true, "Topic.RWMutex": true, "Channel.RWMutex": true}
 	blockingUnderLock(c, c.P.PkgFuncs("nsqd"), classes, map[string]string{
-		"(*nsqd.NSQD).Exit": "shutdown: topic.Close() under n.Lock waits for the topic pump, which never takes n.Lock; listeners are already closed",
+		"(*nsqd.NSQD).Exit":  "shutdown: topic.Close() under n.Lock waits for the topic pump, which never takes n.Lock; listeners are already closed",
 		"(*nsqd.Topic).exit": "delete path: channel.Delete() under t.Lock closes consumers; the topic pump has already exited (waitGroup.Wait precedes)",
 	})
 }
